@@ -15,6 +15,53 @@ from .. import world as _world  # registers the CacheGetFailure look-alike
 EXC = list(FAULT_CLASSES)
 
 
+def maskable_owners(spec):
+    """Ids of the nodes whose failure some enclosing construct may LEGITIMATELY mask: everything reachable from a coalesce
+    member, or from the dispatch of a switch / dataset that has a default to fall back to (over-approximation)."""
+    by = {n["id"]: n for n in spec["nodes"]}
+    starts = []
+    for n in spec["nodes"]:
+        k = n["k"]
+        if k == "coalesce":
+            starts.extend(n["members"])
+        elif k == "switch" and n.get("default") is not None and isinstance(n["dispatch"], dict):
+            starts.append(n["dispatch"]["n"])
+        elif k == "dataset" and isinstance(n.get("dispatch"), dict) and not n.get("abstract"):
+            starts.append(n["dispatch"]["n"])
+    seen = set()
+    stack = list(starts)
+    while stack:
+        i = stack.pop()
+        if i in seen or i not in by:
+            continue
+        seen.add(i)
+        stack.extend(gen.children(by[i]))
+    return seen
+
+
+def owner_of_callable(spec, kind, name):
+    """Id of the node a stub callable belongs to (None if unknown)."""
+    for n in spec["nodes"]:
+        k = n["k"]
+        if kind in ("body", "callback", "effect") and k == "dataset":
+            base = name.split("#")[0]
+            if n["name"] == base or any("fn" in impl and impl["fn"] == base for _, impl in n.get("overloads", [])):
+                return n["id"]
+        if kind == "pred" and k == "case" and name.startswith(f"pred_{n['id']}_"):
+            return n["id"]
+        if kind == "bindfn" and k == "bind" and name == f"bind_{n['id']}":
+            return n["id"]
+        if kind == "factory" and k == "opt" and name == f"fac_{n['id']}":
+            return n["id"]
+        if kind == "dompred" and k == "opt" and name == f"dom_{n['id']}":
+            return n["id"]
+        if kind == "step" and k == "apply":
+            f = n["fn"]
+            if any(g.get("name") == name for g in ([f] if f["t"] != "pipeline" else f["steps"])):
+                return n["id"]
+    return None
+
+
 class C12(HistoryProperty):
     ID = "C12"
     LEVEL = "fault_enumeration"
@@ -85,6 +132,14 @@ class C12(HistoryProperty):
                 return False
         return isinstance(root, InjectedFault) and tuple(root.addr) in {tuple(a) for a in world.fired}
 
+    def _unmaskable(self, spec, addr):
+        """No construct above the faulted callable may swallow its exception: the op must fail, and with THIS exception."""
+        key = id(spec)
+        if getattr(self, "_mask_cache", (None,))[0] != key:
+            self._mask_cache = (key, maskable_owners(spec))
+        owner = owner_of_callable(spec, addr[1], addr[2])
+        return owner is not None and owner not in self._mask_cache[1]
+
     @staticmethod
     def _sets_before_fault(world, op_index):
         """(backends that established a MISS, backends that stored) in this op BEFORE the (first) fault fired."""
@@ -140,7 +195,11 @@ class C12(HistoryProperty):
                     continue
                 for a in fired_here:
                     res.fault(f"{a[1]}:{faults[tuple(a)]}")
+                unmaskable = len(fired_here) == 1 and self._unmaskable(spec, fired_here[0])
                 if out.ok:
+                    if unmaskable:
+                        res.violate("fault-swallowed", op_index=i, node=op["node"], o=op["o"], value=out.brief(), fault=list(fired_here[0]), faults=desc)
+                        return
                     res.bump("fault_masked_op_succeeded")
                     surfaced_all = False
                     continue
@@ -151,6 +210,10 @@ class C12(HistoryProperty):
                     # several faults fired in this op and only one reached the caller: the others were masked, and what a
                     # masked fault's fallback path stored is outside the statement
                     surfaced = False
+                if not surfaced and unmaskable:
+                    res.violate("original-exception-unreachable", op_index=i, node=op["node"], o=op["o"], error=out.brief(),
+                                chain=[type(x).__name__ for x in cause_chain(out.exc)], fault=list(fired_here[0]), faults=desc)
+                    return
                 if not surfaced:
                     res.bump("fault_masked_op_failed_otherwise")
                     surfaced_all = False
@@ -246,7 +309,7 @@ class C12(HistoryProperty):
                 if res.violations:
                     v = res.violations[0]
                     v["detail"]["plan"] = [list(a) + [x] for a, x in plan.items()]
-                    if self.signature(case, v) == "fault-in-key-computation-during-read-back":
+                    if self.signature(case, v) in ("fault-in-key-computation-during-read-back", "user-exception-typed-as-cache-miss-signal"):
                         # open known finding: remember one instance, keep sweeping the other invocations
                         res.bump("known_read_back_hits")
                         stash = stash or v
@@ -295,6 +358,8 @@ class C12(HistoryProperty):
     def signature(self, case, violation):
         if violation["kind"] == "failed-evaluation-left-a-cache-entry" and violation["detail"].get("store_preceded_fault"):
             return "fault-in-key-computation-during-read-back"
+        if violation["kind"] == "fault-swallowed" and any(f[4] == "CacheGetFailure" for f in violation["detail"].get("faults", [])):
+            return "user-exception-typed-as-cache-miss-signal"
         if gen.scalar_at_section_prefix(case["spec"], [op["o"] for op in case["ops"] if "o" in op]):
             return "scalar-at-section-prefix"
         return None
